@@ -352,8 +352,10 @@ func (h *RealtimeHandler) HandleEntityDelete(ctx context.Context, respond hwebso
 
 	now := timestamppb.Now()
 
-	session.GetEntityComponents().DeleteByEntityID(entity.ID)
+	// The entity is removed before what is attached to it: a concurrent request
+	// that attaches something re-checks the entity afterwards.
 	session.RemoveEntity(entity)
+	session.GetEntityComponents().DeleteByEntityID(entity.ID)
 	participant.RemoveEntity(entity)
 
 	respond.Send(&hagallpb.EntityDeleteResponse{
@@ -640,6 +642,19 @@ func (h *RealtimeHandler) HandleEntityComponentAdd(ctx context.Context, respond 
 			Timestamp: timestamppb.Now(),
 			RequestId: req.RequestId,
 			Code:      errCode,
+		})
+		return nil
+	}
+
+	// The entity may have been removed by its owner since it was looked up;
+	// the component must not outlive it.
+	if _, ok := session.EntityByID(entity.ID); !ok {
+		session.GetEntityComponents().Delete(entityComponent.EntityComponentTypeId, entity.ID)
+		respond.Send(&hagallpb.ErrorResponse{
+			Type:      hagallpb.MsgType_MSG_TYPE_ERROR_RESPONSE,
+			Timestamp: timestamppb.Now(),
+			RequestId: req.RequestId,
+			Code:      hagallpb.ErrorCode_ERROR_CODE_NOT_FOUND,
 		})
 		return nil
 	}
@@ -1005,10 +1020,6 @@ func (h *RealtimeHandler) leaveSession() {
 		return
 	}
 
-	for _, m := range h.Modules {
-		m.HandleDisconnect()
-	}
-
 	session.GetEntityComponents().UnsubscribeByParticipant(participant.ID)
 
 	now := timestamppb.Now()
@@ -1019,8 +1030,8 @@ func (h *RealtimeHandler) leaveSession() {
 			continue
 		}
 
-		session.GetEntityComponents().DeleteByEntityID(entity.ID)
 		session.RemoveEntity(entity)
+		session.GetEntityComponents().DeleteByEntityID(entity.ID)
 
 		h.FeatureFlags.IfNotSet(featureflag.FlagDisableEntityDeleteBroadcast, func() {
 			session.Broadcast(participant, &hagallpb.EntityDeleteBroadcast{
@@ -1030,6 +1041,11 @@ func (h *RealtimeHandler) leaveSession() {
 				EntityId:        entity.ID,
 			})
 		})
+	}
+
+	// Modules drop what is attached to the entities removed above.
+	for _, m := range h.Modules {
+		m.HandleDisconnect()
 	}
 
 	if h.stopFrameHandling != nil {
